@@ -3,6 +3,7 @@ import Driver.Val
 import TxdbusModel.Gen.Message
 import TxdbusModel.Msg.Message
 import TxdbusModel.Msg.SpecMsg
+import TxdbusModel.Wire.Code
 /-!
 Driver for property C03.  One operation per line (tokens separated by single spaces).
 
@@ -22,6 +23,12 @@ Driver for property C03.  One operation per line (tokens separated by single spa
       -> `<byteshex>`
 
 attr = N | s<strhex> | i<dec> | b0 | b1 | d<16 hex> | ?<kind>
+
+`gen=` (build and parse answers): cross-check of the header fragment (Msg/HeaderCode.lean) against the GENERAL
+code model of the wire codec (Wire/Code.lean, C01/C02) on the header signature `yyyyuua(yv)`:
+build: `Code.marshal` of `[endian, type, flags, version, bodyLength, serial, headers]` gives rawHeader (1) or not (0);
+parse: `Code.unmarshal` of the raw message gives the same `nheader` and the same seven values as
+`unmarshalHeader` (1) or not (0); `-` when the general model is not applicable (fragment answered `Exception`).
 -/
 open Txdbus Txdbus.Msg Driver
 
@@ -93,6 +100,51 @@ def wfBit (raw : Bytes) : String :=
     | some _ => "1"
     | none => "0"
 
+/-- `self.headers` as the Python value handed to `marshal.marshal`: a list of `[code, value]` lists. -/
+def headersVal (hs : List (PyVal × PyVal)) : PyVal := .list (hs.map fun h => .list [h.1, h.2])
+
+/-- Cross-check on the marshalling side (see the module comment). -/
+def genMarshalBit (m : Msg PreBody) : String :=
+  let T := Gen.Message.tables
+  let table := if !isNone (m.attrs .unixFds) then T.headerAttrs m.cls ++ [T.unixFdsEntry] else T.headerAttrs m.cls
+  match buildHeaders m.attrs table with
+  | .error _ => "0"
+  | .ok hs =>
+    let vals : PyVal := .list [.int .plain T.endian, .int .plain (T.messageType m.cls),
+      .int .plain (flagsByte m.expectReply m.autoStart), .int .plain T.protocolVersion,
+      .int .plain m.rawBody.length, .int .plain m.serial, headersVal hs]
+    match Code.marshal 16 T.headerFormat vals 0 (T.endian == 108) none with
+    | .ok (n, bs, _) => if bs == m.rawHeader && n == m.rawHeader.length then "1" else "0"
+    | .error _ => "0"
+
+def pyValBeq : PyVal → PyVal → Bool
+  | .none, .none => true
+  | .bool a, .bool b => a == b
+  | .int c n, .int d k => c == d && n == k
+  | .float a, .float b => a == b
+  | .str c s, .str d t => c == d && s == t
+  | _, _ => false
+
+/-- Cross-check on the unmarshalling side. -/
+def genUnmarshalBit (raw : Bytes) (fds : Option (List PyVal)) : String :=
+  let T := Gen.Message.tables
+  match raw with
+  | [] => "-"
+  | b0 :: _ =>
+    let le := b0 == 108
+    match unmarshalHeader T.align le raw fds, Code.unmarshal 16 T.headerFormat raw 0 le fds with
+    | .error .other, _ => "-"
+    | .ok h, .ok (n, [.int _ v0, .int _ v1, .int _ v2, .int _ v3, .int _ v4, .int _ v5, .list items]) =>
+      let fieldsOk := items.length == h.fields.length &&
+        (List.zip items h.fields).all fun p =>
+          match p.1 with
+          | .list [.int _ c, v] => c == (p.2.1 : Nat) && pyValBeq v p.2.2
+          | _ => false
+      if n == h.nheader && v0 == (h.endian : Nat) && v1 == (h.mtype : Nat) && v2 == (h.flags : Nat) &&
+         v3 == (h.version : Nat) && v4 == (h.bodyLength : Nat) && v5 == (h.serial : Nat) && fieldsOk then "1" else "0"
+    | .error e1, .error e2 => if e1 == e2 then "1" else "0"
+    | _, _ => "0"
+
 def buildStep (toks : List String) : String :=
   match toks with
   | [cls, nxt, mx, er, as, path, member, iface, errname, rserial, dest, sender, sg, oob, pre] =>
@@ -127,7 +179,7 @@ def buildStep (toks : List String) : String :=
             "ok serial=" ++ toString m.serial ++ " next=" ++ toString r.1.nextSerial ++
             " raw=" ++ bytesToHex m.raw ++ " hdr=" ++ bytesToHex m.rawHeader ++
             " pad=" ++ bytesToHex m.rawPadding ++ " body=" ++ bytesToHex m.rawBody ++
-            " ufds=" ++ attrStr (m.attrs .unixFds) ++ " wf=" ++ wfBit m.raw
+            " ufds=" ++ attrStr (m.attrs .unixFds) ++ " wf=" ++ wfBit m.raw ++ " gen=" ++ genMarshalBit m
       | _, _, _, _, _, _, _ => "bad-input"
     | _, _, _, _, _, _, _ => "bad-input"
   | _ => "bad-input"
@@ -137,20 +189,51 @@ def attrNames : List (Attr × String) :=
    (.replySerial, "reply_serial"), (.destination, "destination"), (.sender, "sender"),
    (.signature, "signature"), (.unixFds, "unix_fds")]
 
+/-- The header through the GENERAL code model (`Code.unmarshal` on `yyyyuua(yv)`), as `HeaderVals`: used when the
+fragment answers `PyErr.other` (a header field whose variant holds a container). -/
+def generalHeader (raw : Bytes) (le : Bool) (fds : Option (List PyVal)) : Except PyErr HeaderVals :=
+  match Code.unmarshal 64 Gen.Message.tables.headerFormat raw 0 le fds with
+  | .error e => .error e
+  | .ok (n, [.int _ v0, .int _ v1, .int _ v2, .int _ v3, .int _ v4, .int _ v5, .list items]) =>
+    let fields := items.filterMap fun it =>
+      match it with
+      | .list [.int _ c, v] => some (c.toNat, v)
+      | _ => none
+    if fields.length == items.length then
+      .ok ⟨n, v0.toNat, v1.toNat, v2.toNat, v3.toNat, v4.toNat, v5.toNat, fields⟩
+    else .error .other
+  | .ok _ => .error .other
+
+/-- `parseMessage` of the model; when the header is outside the fragment, the same `parseAfterHeader` on the
+header decoded by the general code model (`via=general` in the answer). -/
+def parseBoth (raw : Bytes) (fds : Option (List PyVal)) : Except PyErr (Msg PreBody) × String :=
+  let T := Gen.Message.tables
+  match parseMessage T preCodec raw fds with
+  | .error .other =>
+    match raw with
+    | [] => (.error .other, "")
+    | b0 :: _ =>
+      let le := b0 == 108
+      match generalHeader raw le fds with
+      | .error e => (.error e, " via=general")
+      | .ok h => (parseAfterHeader T preCodec raw le fds h, " via=general")
+  | r => (r, "")
+
 def parseStep (toks : List String) : String :=
   match toks with
   | [h, f] =>
     match hexToBytes? h, fds? f with
     | some raw, some fds =>
       let T := Gen.Message.tables
-      match parseMessage T preCodec raw fds with
-      | .error e => "err kind=" ++ pyErrName e
+      let (res, via) := parseBoth raw fds
+      match res with
+      | .error e => "err kind=" ++ pyErrName e ++ " gen=" ++ genUnmarshalBit raw fds ++ via
       | .ok m =>
         "ok type=" ++ toString (T.messageType m.cls) ++ " serial=" ++ toString m.serial ++
         " er=" ++ tf m.expectReply ++ " as=" ++ tf m.autoStart ++
         String.join (attrNames.map fun (a, n) => " " ++ n ++ "=" ++ attrStr (m.attrs a)) ++
         " hdr=" ++ toString m.rawHeader.length ++ " pad=" ++ bytesToHex m.rawPadding ++
-        " body=" ++ bytesToHex m.rawBody
+        " body=" ++ bytesToHex m.rawBody ++ " gen=" ++ genUnmarshalBit raw fds ++ via
     | _, _ => "bad-input"
   | _ => "bad-input"
 
